@@ -154,13 +154,21 @@ def is_product_param(spec, p) -> bool:
     return bool(p["product"]) or p["name"] == "produces"
 
 
-def render_task(spec) -> str:
+def render_task(spec, defs=None) -> str:
+    """`defs` collects module-level definitions (objects shared between several declarations: `kwargs_var`, `shared`)."""
+    defs = {} if defs is None else defs
     name = spec["name"]
     deco = []
+    if spec.get("gen"):
+        deco.append("is_generator=True")
     if spec["kwargs"]:
         pn = {p["name"]: p for p in spec["params"]}
         items = ", ".join(f'"{n}": {tree_expr(t, not (n in pn and is_product_param(spec, pn[n])))}' for n, t in spec["kwargs"])
-        deco.append("kwargs={" + items + "}")
+        if spec.get("kwargs_var"):
+            defs.setdefault(spec["kwargs_var"], "{" + items + "}")     # ONE dict object handed to several @task(kwargs=…)
+            deco.append("kwargs=" + spec["kwargs_var"])
+        else:
+            deco.append("kwargs={" + items + "}")
     if spec.get("produces") is not None:
         deco.append("produces=" + tree_expr(spec["produces"], False))
     lines = []
@@ -178,7 +186,12 @@ def render_task(spec) -> str:
         if meta:
             s += ": Annotated[Any, " + ", ".join(meta) + "]"
         if p["default"] is not None:
-            s += " = " + tree_expr(p["default"], dep)
+            var = (spec.get("shared") or {}).get(p["name"])
+            if var:
+                defs.setdefault(var, tree_expr(p["default"], dep))         # ONE container object used by several declarations
+                s += " = " + var
+            else:
+                s += " = " + tree_expr(p["default"], dep)
         ps.append(s)
     ret = ""
     if spec.get("ret") is not None:
@@ -187,15 +200,24 @@ def render_task(spec) -> str:
     lines.append(f"def task_{name}({sig}){ret}:")
     prods = [p["name"] for p in spec["params"] if is_product_param(spec, p)]
     lines.append(f"    body({name!r}, dict({', '.join(p['name'] + '=' + p['name'] for p in spec['params'])}), {prods!r})")
+    if spec.get("gen"):
+        lines += ["", f'    @task(name="task_{name}_kid")', "    def _kid():", "        pass"]
     if spec.get("out") is not None:
         lines.append("    return " + out_expr(spec["out"]))
+    if spec.get("writer"):      # auxiliary task of the sequence stream: pickles the text of `src` into a *Path* product
+        w = spec["writer"]
+        return (f'def task_{name}(src=Path("{w["src"]}.txt"), produces=Path("{w["dst"]}.pkl")):\n'
+                f'    import pickle\n    produces.write_bytes(pickle.dumps("pk:" + src.read_text()))\n')
     return "\n".join(lines) + "\n"
 
 
 def render_module(specs) -> str:
     head = ("from pathlib import Path\nfrom typing import Annotated, Any\nfrom pytask import task, Product, PythonNode, PickleNode\n"
             "from c07rt import ROOT, cat, body\n\n")
-    return head + "\n\n".join(render_task(s) for s in specs)
+    defs = {}
+    tasks = [render_task(s, defs) for s in specs]
+    shared = "".join(f"{var} = {expr}\n" for var, expr in defs.items())
+    return head + shared + ("\n" if shared else "") + "\n\n".join(tasks)
 
 
 def decl_leaves(t):
@@ -207,7 +229,21 @@ def write_project(root: Path, specs):
     (root / "pyproject.toml").write_text("[tool.pytask.ini_options]\n")
     (root / "c07rt.py").write_text(RT)
     (root / "task_c07.py").write_text(render_module(specs))
+    produced = set()        # leaves some task of the project declares as product (shared containers, writer tasks)
     for spec in specs:
+        if spec.get("writer"):
+            produced.add("k" + spec["writer"]["dst"])
+            continue
+        kwd = dict((n, t) for n, t in spec["kwargs"])
+        for p in spec["params"]:
+            if is_product_param(spec, p):
+                d = kwd.get(p["name"]) or p["default"] or p["annot"]
+                if d is not None:
+                    produced.update(decl_leaves(d))
+    for spec in specs:
+        if spec.get("writer"):
+            (root / f"{spec['writer']['src']}.txt").write_text(spec["writer"]["v1"])
+            continue
         pn = {p["name"]: p for p in spec["params"]}
         dep_trees = []
         for p in spec["params"]:
@@ -218,6 +254,8 @@ def write_project(root: Path, specs):
                 dep_trees.append(t)
         for t in dep_trees:
             for tok in decl_leaves(t):
+                if tok in produced:
+                    continue
                 if tok[0] == "p":
                     (root / f"{tok[1:]}.txt").write_text("input " + tok[1:])
                 elif tok[0] == "k" and not tok[1:].startswith("cat_"):
@@ -364,10 +402,15 @@ def ill_formed(spec) -> bool:
     return False
 
 
-def expected_recv(spec) -> dict:
+def expected_recv(spec, current=None) -> dict:
+    """`current`: pickle file stem -> what the file holds *now* (default: the initial content, the stem itself)."""
+    current = current or {}
+
+    def dep_now(tok):
+        return "u" + current.get(tok[1:], tok[1:]) if tok[0] == "k" else dep_obj(tok)
     out = {}
     for p in spec["params"]:
-        f = prod_obj if is_product_param(spec, p) else dep_obj
+        f = prod_obj if is_product_param(spec, p) else dep_now
         out[p["name"]] = enc(declared(spec, p), leaf=lambda l, f=f: f(l[1]))
     return out
 
@@ -447,7 +490,7 @@ def opt(t):
 def model_lines(spec):
     ps = ";".join(f"{p['name']}~{opt(p['default'])}~{opt(p['annot'])}~{1 if p['product'] else 0}" for p in spec["params"]) or "-"
     kw = ";".join(f"{n}~{enc(t)}" for n, t in spec["kwargs"]) or "-"
-    lines = [f"args.run params={ps} kwargs={kw} ret={opt(spec.get('ret'))} produces={opt(spec.get('produces'))}"]
+    lines = [f"args.run params={ps} kwargs={kw} ret={opt(spec.get('ret'))} produces={opt(spec.get('produces'))}" + (" gen=1" if spec.get("gen") else "")]
     rt = ret_tree(spec)
     if rt is not None and spec.get("out") is not None and not any(tok[0] not in "pk" for tok in decl_leaves(rt)):
         lines.append(f"args.return ret={enc(rt, leaf=lambda l: node_tok(l[1]))} out={enc(spec['out'])}")
@@ -664,6 +707,10 @@ def gen_task(rng, name, special=None):
             p["product"] = True
             p["default"] = rng.choice([["list", []], ["tuple", []], ["dict", []]])
         spec["params"].append(p)
+    if special == "gen":
+        # task generator: goes through provisional.py's own kwargs loop; no return handling there
+        spec["gen"] = True
+        return spec
     r = rng.random()
     want_ret = special == "F71" or r < 0.6
     if want_ret:
@@ -699,18 +746,61 @@ def corpus():
     return out
 
 
+def gen_shared_kwargs_group(rng, base):
+    """2–3 tasks of one module handed the SAME dict object as `@task(kwargs=COMMON)`; they also have same-named parameters
+    with task-specific defaults that COMMON does not mention (and sometimes each its own `produces` default)."""
+    names = Names(base + "_")
+    var = "COMMON_" + base
+    common = [[f"c{i}", gen_decl_tree(rng, names, "vvvpk")] for i in range(rng.randint(1, 2))]
+    own = [f"d{i}" for i in range(rng.randint(1, 2))]
+    with_produces = rng.random() < 0.5
+    specs = []
+    for j in range(rng.randint(2, 3)):
+        params = [{"name": n, "default": (gen_decl_tree(rng, names, "vvp") if rng.random() < 0.3 else None), "annot": None, "product": False}
+                  for n, _ in common]
+        params += [{"name": n, "default": gen_decl_tree(rng, names, "vvvph", leaf_p=0.5), "annot": None, "product": False} for n in own]
+        if with_produces:
+            params.append({"name": "produces", "default": gen_decl_tree(rng, names, "ppk", leaf_p=0.5, nonempty=True), "annot": None, "product": False})
+        rng.shuffle(params)
+        specs.append({"name": f"{base}s{j}", "params": params, "kwargs": [list(x) for x in common], "kwargs_var": var,
+                      "ret": None, "produces": None, "out": None, "sentinel": False, "gen": rng.random() < 0.15})
+    return specs
+
+
+def gen_shared_container_group(rng, base):
+    """ONE container object used by two declarations: the `produces` default of a producer and a dependency default of a
+    consumer (which thereby depends on the producer), or the dependency defaults of two tasks."""
+    names = Names(base + "_")
+    var = "SHARED_" + base
+    while True:
+        tree = gen_decl_tree(rng, names, "p", depth=2, leaf_p=0.4, nonempty=True)
+        if tree[0] != "leaf" and tree_api.nleaves(tree) >= 1:
+            break
+    first_is_producer = rng.random() < 0.7
+    a = {"name": f"{base}c0", "params": [{"name": "produces" if first_is_producer else "x", "default": tree, "annot": None, "product": False}],
+         "kwargs": [], "ret": None, "produces": None, "out": None, "sentinel": False, "shared": {"produces" if first_is_producer else "x": var}}
+    b = {"name": f"{base}c1", "params": [{"name": "x", "default": tree, "annot": None, "product": False},
+                                         {"name": "y", "default": gen_decl_tree(rng, names, "vvp"), "annot": None, "product": False}],
+         "kwargs": [], "ret": None, "produces": None, "out": None, "sentinel": False, "shared": {"x": var}}
+    return [a, b]
+
+
 def projects(ctx):
     rng = ctx.rng
     projs = [[c] for c in corpus()]
-    nproj = ctx.scale(70, 700)
+    nproj = ctx.scale(50, 700)
     tid = 0
-    for _ in range(nproj):
+    for i in range(nproj):
         specs = []
-        for _ in range(6):
+        for _ in range(5):
             tid += 1
             r = rng.random()
-            special = "F70" if r < 0.06 else "F71" if r < 0.12 else "F72" if r < 0.16 else None
+            special = "F70" if r < 0.06 else "F71" if r < 0.12 else "F72" if r < 0.16 else "gen" if r < 0.28 else None
             specs.append(gen_task(rng, f"t{tid}", special))
+        if i % 2 == 0:
+            specs += gen_shared_kwargs_group(rng, f"g{i}")
+        if i % 3 == 0:
+            specs += gen_shared_container_group(rng, f"h{i}")
         projs.append(specs)
     for _ in range(ctx.scale(6, 40)):
         tid += 1
@@ -762,13 +852,118 @@ def check_projects(ctx, projs, results):
                 ctx.dist["e2e:return:" + ("fits" if fits(ret_tree(spec), spec["out"]) else "misfit")] += 1
             if ill_formed(spec):
                 ctx.dist["e2e:ill-formed"] += 1
+            for tag in ("gen", "kwargs_var", "shared"):
+                if spec.get(tag):
+                    ctx.dist["e2e:" + tag] += 1
             for kind, msg, finding in oracle(spec, o):
-                ctx.violation(f"{kind}: {msg}", {"layer": "e2e", "spec": spec}, finding=finding)
+                rep = {"layer": "e2e", "spec": spec}
+                if any(sp.get("kwargs_var") or sp.get("shared") for sp in specs):
+                    rep["project"] = specs      # objects shared between declarations: the module as a whole is the input
+                ctx.violation(f"{kind}: {msg}", rep, finding=finding)
             if drv is not None:
                 compare_model(ctx, drv, spec, o)
 
 
+# ---------------------------------------------------------------------------------------------
+# stream (c): several builds inside ONE process, pickled inputs change between the builds
+# ---------------------------------------------------------------------------------------------
+
+SEQ_WORKER = Path(__file__).resolve().parent / "args_seq_worker.py"
+
+
+def gen_sequence(rng, base):
+    """readers: plain `def task_…` functions (no decorator) with dependency defaults over values, paths and pickle nodes;
+    one writer/reader pair where the pickle file is the *Path* product of another task. Steps: build, edit, build[, edit, build]."""
+    names = Names(base + "_")
+    readers = []
+    for j in range(rng.randint(1, 3)):
+        params = []
+        for i in range(rng.randint(1, 2)):
+            while True:
+                t = gen_decl_tree(rng, names, "vkkkp", depth=2, leaf_p=0.4)
+                if any(tok[0] == "k" for tok in decl_leaves(t)):
+                    break
+            params.append({"name": f"a{i}", "default": t, "annot": None, "product": False})
+        readers.append({"name": f"{base}r{j}", "params": params, "kwargs": [], "ret": None, "produces": None, "out": None, "sentinel": False})
+    dst = names.new("w")
+    writer = {"name": f"{base}w", "writer": {"src": f"{base}_src", "dst": dst, "v1": f"{dst}v1"}, "params": [], "kwargs": []}
+    via = {"name": f"{base}v", "params": [{"name": "x", "default": ["list", [["leaf", "k" + dst], ["leaf", "v3"]]], "annot": None, "product": False}],
+           "kwargs": [], "ret": None, "produces": None, "out": None, "sentinel": False}
+    specs = readers + [writer, via]
+    pickles = sorted({tok[1:] for sp in readers for p in sp["params"] for tok in decl_leaves(p["default"]) if tok[0] == "k"})
+    steps, currents = [["build"]], [{dst: f"{dst}v1"}]
+    cur = dict(currents[0])
+    for rnd in range(rng.randint(1, 2)):
+        for name in rng.sample(pickles, rng.randint(1, len(pickles))):
+            cur[name] = f"{name}x{rnd + 2}"
+            steps.append(["pickle", f"{name}.pkl", "pk:" + cur[name]])
+        if rng.random() < 0.7:
+            cur[dst] = f"{dst}v{rnd + 2}"
+            steps.append(["text", f"{base}_src.txt", cur[dst]])
+        steps.append(["build"])
+        currents.append(dict(cur))
+    return {"specs": specs, "steps": steps, "currents": currents}
+
+
+def run_sequences(seqs, nproc=4):
+    import subprocess
+
+    def one(seq):
+        root = common.scratch_dir("c07s")
+        try:
+            write_project(root, seq["specs"])
+            p = subprocess.run([common.PY, str(SEQ_WORKER)], input=json.dumps({"root": str(root), "steps": seq["steps"]}),
+                               capture_output=True, text=True, env=dict(__import__("os").environ, PYTHONDONTWRITEBYTECODE="1"), cwd="/")
+            if p.returncode != 0 or not p.stdout.strip():
+                raise common.InfraError(f"sequence worker failed: {p.stderr[-600:]}")
+            return json.loads(p.stdout.strip().splitlines()[-1])
+        finally:
+            shutil.rmtree(root, ignore_errors=True)
+    with ThreadPoolExecutor(max_workers=nproc) as ex:
+        return list(ex.map(one, seqs))
+
+
+def check_sequences(ctx, seqs, results):
+    drv = ctx.driver() if ctx.use_model else None
+    for seq, builds in zip(seqs, results):
+        judged = [sp for sp in seq["specs"] if not sp.get("writer")]
+        ctx.case(["seq", [{k: v for k, v in sp.items() if k != "name"} for sp in seq["specs"]], seq["steps"]], len(builds) >= 2,
+                 {"steps": seq["steps"], "tasks": [render_task(sp) for sp in judged][:2], "received": [b["logs"] for b in builds]})
+        ctx.dist[f"seq:builds={len(builds)}"] += 1
+        for i, (b, cur) in enumerate(zip(builds, seq["currents"])):
+            if b.get("raised"):
+                raise common.InfraError(f"build {i} of a sequence raised {b['raised']}")
+            for sp in judged:
+                got = b["logs"].get(sp["name"])
+                if got is None:
+                    if i == 0:
+                        ctx.violation(f"kwargs: task {sp['name']} with a well-formed declaration did not run its body in the first build "
+                                      f"of a sequence (reports {b['reports']})", {"layer": "seq", "seq": seq})
+                    continue        # not re-executed in a later build: no value received, nothing to judge here
+                ctx.dist["seq:judged-later-build" if i else "seq:judged-first-build"] += 1
+                want = expected_recv(sp, cur)
+                for p in sp["params"]:
+                    if got.get(p["name"]) != want[p["name"]]:
+                        ctx.violation(f"kwargs: build {i + 1} of a sequence in one process: task {sp['name']}: parameter {p['name']!r} declared as "
+                                      f"{enc(declared(sp, p))} received {got.get(p['name'])}, expected {want[p['name']]} "
+                                      f"(current contents of the pickle files: {cur})", {"layer": "seq", "seq": seq})
+                if drv is not None and i == 0:
+                    # the model's `unpickled p` is "what file p holds"; compared on the first build, where that is the initial content
+                    norm = {k: v for k, v in got.items()}
+                    for name, val in cur.items():
+                        norm = {k: v.replace("*u" + val, "*u" + name) for k, v in norm.items()}
+                    line = model_lines(sp)[0]
+                    ans = drv.ask(line)
+                    first = "ok recv=" + (";".join(f"{k}~{v}" for k, v in sorted(norm.items())) or "-") + " "
+                    if not ans.startswith(first):
+                        ctx.disagreement(f"args model (sequence): {line!r}: implementation {first!r}, model {ans!r}",
+                                         {"layer": "seq", "seq": seq, "impl": first, "model": ans})
+                    ctx.traces_validated += 1
+
+
 def campaign(ctx):
+    seqs = [gen_sequence(ctx.rng, f"q{i}") for i in range(ctx.scale(6, 60))]
+    check_sequences(ctx, seqs, run_sequences(seqs, nproc=8 if ctx.thorough else 4))
     projs = projects(ctx)
     results = run_projects(projs, nservers=8 if ctx.thorough else 4)
     check_projects(ctx, projs, results)
